@@ -23,6 +23,7 @@ type safetyRun struct {
 	gcache map[string][][]*flow.Term
 	label  string // partition label appended to obligation keys
 	kinds  map[string]bool // nil: every obligation kind; otherwise only these
+	altCtx map[string][]*flow.Ctx // per facts alternative: the context that binds callee choices
 	// counters
 	n map[string]int
 }
@@ -89,7 +90,9 @@ func (s *safetyRun) factsAt(fr flow.Frame, blk *ssa.BasicBlock) [][]*flow.Term {
 		}
 	}
 	var res [][]*flow.Term
+	var ctxs []*flow.Ctx
 	for _, a := range s.e.GatesAt(fr.Fn, fr.Ctx, blk.Index) {
+		ctxs = append(ctxs, a.Ctx)
 		fs := append([]*flow.Term{}, outer...)
 		for _, g := range a.Gates {
 			if g.Call != nil {
@@ -112,6 +115,10 @@ func (s *safetyRun) factsAt(fr flow.Frame, blk *ssa.BasicBlock) [][]*flow.Term {
 		res[i] = closeImplications(res[i])
 	}
 	s.gcache[key] = res
+	if s.altCtx == nil {
+		s.altCtx = map[string][]*flow.Ctx{}
+	}
+	s.altCtx[key] = ctxs
 	return res
 }
 
@@ -388,9 +395,17 @@ func shortCtx(c *flow.Ctx) string {
 }
 
 // need proves an arithmetic obligation under every alternative of facts.
-func (s *safetyRun) need(key, kind, where, what string, fr flow.Frame, blk *ssa.BasicBlock, prove func(*prover) bool, subject string) {
-	for _, facts := range s.factsAt(fr, blk) {
+func (s *safetyRun) need(key, kind, where, what string, fr flow.Frame, blk *ssa.BasicBlock, prove func(*prover) bool, subject string, retry ...func(*flow.Ctx) func(*prover) bool) {
+	fk := fmt.Sprintf("%p/%p/%d", fr.Fn, fr.Ctx, blk.Index)
+	for i, facts := range s.factsAt(fr, blk) {
 		if !prove(newProver(facts)) {
+			// the same obligation with the subject evaluated on this alternative
+			// (a lookup helper's result is definite there)
+			if cs := s.altCtx[fk]; len(retry) > 0 && i < len(cs) && cs[i] != nil {
+				if retry[0](cs[i])(newProver(facts)) {
+					continue
+				}
+			}
 			s.fail(kind, key, where, fmt.Sprintf("%s: cannot be shown from the checks that dominate it (subject: %s; call path %s)", what, subject, strings.Join(fr.Ctx.CallString(), " > ")), false)
 			return
 		}
@@ -400,9 +415,16 @@ func (s *safetyRun) need(key, kind, where, what string, fr flow.Frame, blk *ssa.
 
 func (s *safetyRun) nonNil(v ssa.Value, fr flow.Frame, in ssa.Instruction, key, where string) {
 	t := s.e.Eval(v, fr.Ctx)
-	for _, facts := range s.factsAt(fr, in.Block()) {
+	fk := fmt.Sprintf("%p/%p/%d", fr.Fn, fr.Ctx, in.Block().Index)
+	for i, facts := range s.factsAt(fr, in.Block()) {
 		ok, _ := s.nonNilTerm(t, facts)
 		if !ok {
+			// on this alternative a lookup helper's result may be definite
+			if cs := s.altCtx[fk]; i < len(cs) && cs[i] != nil {
+				if ok2, _ := s.nonNilTerm(s.e.Eval(v, cs[i]), facts); ok2 {
+					continue
+				}
+			}
 			s.fail("B2", key, where, fmt.Sprintf("possible nil dereference of %s (call path %s): no dominating nil check, validity check or allocation establishes it is non-nil", truncate(t.String(), 160), strings.Join(fr.Ctx.CallString(), " > ")), false)
 			return
 		}
@@ -439,7 +461,18 @@ func (s *safetyRun) index(in ssa.Instruction, xv, iv ssa.Value, fr flow.Frame, s
 	}
 	s.need(site+"#idx", "B1", where, "index must be within bounds", fr, in.Block(), func(p *prover) bool {
 		return p.proveLess(i, ln) && p.proveLeq(flow.C("0"), i)
-	}, truncate(x.String(), 90)+"["+truncate(i.String(), 60)+"]")
+	}, truncate(x.String(), 90)+"["+truncate(i.String(), 60)+"]", func(c *flow.Ctx) func(*prover) bool {
+		x2 := e.Eval(xv, c)
+		if _, isPtr := xv.Type().Underlying().(*types.Pointer); isPtr {
+			x2 = &flow.Term{Op: flow.OpDeref, Args: []*flow.Term{x2}, Typ: xv.Type().Underlying().(*types.Pointer).Elem()}
+		}
+		i2 := e.Eval(iv, c)
+		ln2 := flow.N(flow.OpLen, "", x2)
+		if n, ok := fixedLen(x2); ok {
+			ln2 = flow.C(fmt.Sprint(n))
+		}
+		return func(p *prover) bool { return p.proveLess(i2, ln2) && p.proveLeq(flow.C("0"), i2) }
+	})
 }
 
 func (s *safetyRun) slice(x *ssa.Slice, fr flow.Frame, site, where string) {
